@@ -33,7 +33,7 @@ type c14Scenario struct {
 	StartupTaint bool      `json:"startupTaint"`
 	PoolTaint    bool      `json:"poolTaint"`
 	WantGPU      bool      `json:"wantGPU"`
-	Outcomes     []string  `json:"outcomes"` // provider Create outcomes in order: ok | ice | ncnr | createerr | err
+	Outcomes     []string  `json:"outcomes"` // provider Create outcomes in order: ok | ice | ncnr | createerr | err | createerr-ice | wrapped-ice
 	JoinNoTaint  bool      `json:"joinWithoutUnregisteredTaint"`
 	Steps        []c14Step `json:"steps"`
 	FaultKinds   []int     `json:"faultKinds"` // error kind per fault index (quick tier)
@@ -51,7 +51,7 @@ func drawC14(t *rapid.T) *c14Scenario {
 		JoinNoTaint: rapid.IntRange(0, 5).Draw(t, "joinNoTaint") == 0}
 	nOut := rapid.IntRange(1, 3).Draw(t, "nOutcomes")
 	for i := 0; i < nOut; i++ {
-		s.Outcomes = append(s.Outcomes, rapid.SampledFrom([]string{"ok", "ok", "ok", "ok", "ice", "ncnr", "createerr", "err"}).Draw(t, "outcome"))
+		s.Outcomes = append(s.Outcomes, rapid.SampledFrom([]string{"ok", "ok", "ok", "ok", "ice", "ncnr", "createerr", "err", "createerr-ice", "wrapped-ice"}).Draw(t, "outcome"))
 	}
 	// a mostly-happy skeleton with generated perturbations
 	kinds := []string{"reconcile", "reconcile", "reconcile", "stale", "join", "ready", "untaint", "gpu", "clock", "notready"}
@@ -165,6 +165,16 @@ func runC14(s *c14Scenario, faultIdx, faultKind int) *c14Run {
 				iceSeen = true
 				capacityErrNow = true
 				return cloudprovider.NewNodeClassNotReadyError(fmt.Errorf("scripted NodeClassNotReady"))
+			case "createerr-ice":
+				// providers wrap what went wrong in a CreateError carrying a reason for the condition; the cause is still a
+				// capacity error
+				iceSeen = true
+				capacityErrNow = true
+				return cloudprovider.NewCreateError(fmt.Errorf("creating instance failed, %w", cloudprovider.NewInsufficientCapacityError(fmt.Errorf("scripted ICE"))), "ScriptedReason", "scripted message")
+			case "wrapped-ice":
+				iceSeen = true
+				capacityErrNow = true
+				return fmt.Errorf("launching, %w", cloudprovider.NewInsufficientCapacityError(fmt.Errorf("scripted ICE")))
 			case "createerr":
 				return cloudprovider.NewCreateError(fmt.Errorf("scripted create error"), "ScriptedReason", "scripted message")
 			case "err":
